@@ -251,4 +251,13 @@ theorem render_load_needs_PlainGroups :
   rw [← lossless_iff]
   refine ⟨⟨⟨?_, ?_, ?_, ?_, ?_, ?_, ?_, ?_, ⟨?_, ?_⟩, ?_⟩, ?_, ?_, ?_⟩, ?_⟩ <;> decide
 
+/-- **`Valid` is not gratuitous**: one document per clause of `Valid` that the code forces
+(referenced groups listed; attachments non-empty; timeout > 0; no `HARD_EXIT` destination).
+Each satisfies the four named hypotheses, violates only that clause, and its round trip is
+NOT lossless (kernel-computed; replayed on the real code by the harness). -/
+theorem valid_clauses_needed :
+    (∀ d ∈ [docOutsideUnlistedGroup, docOutsideEmptyAttachment, docOutsideZeroTimeout, docOutsideHardExit],
+      validB d = false ∧ OrderedCats d ∧ ExitsByCats d ∧ UntypedFields d ∧ PlainGroups d ∧ lossless d = false) := by
+  decide
+
 end Rpft.Props.C05
